@@ -94,6 +94,8 @@ fn apply_all(reps: &mut [GameState], a: &Action, evals: &mut u64) -> Result<(), 
 }
 
 /// executes a symmetric run; ops: action texts in replica-0 coordinates and "!restart"
+thread_local! { static CUTS: std::cell::RefCell<Option<Vec<(usize, String)>>> = const { std::cell::RefCell::new(None) }; }
+
 fn execute_sym(start: &str, ops_in: Option<&[String]>, rng: Option<&mut Rng>, cap: usize, restart_rate: f64, trace: &mut Vec<String>, evals: &mut u64, distinct: &mut FpSet) -> Result<(), SymFail> {
     let (board, side, mv) = parse_diagram(start).ok_or(SymFail { monitor: "sym.start", detail: "bad start diagram".into() })?;
     let mut reps = parse_replicas(&board, side, mv).map_err(|e| SymFail { monitor: "sym.start", detail: e })?;
@@ -107,6 +109,13 @@ fn execute_sym(start: &str, ops_in: Option<&[String]>, rng: Option<&mut Rng>, ca
     let mut seen: Vec<[u8; 64]> = vec![];
     let mut i = 0usize;
     loop {
+        if reps[0].is_play_phase() && reps[0].current_step() == 0 {
+            CUTS.with(|c| {
+                if let Some(v) = c.borrow_mut().as_mut() {
+                    v.push((trace.len(), reps[0].to_string()));
+                }
+            });
+        }
         let va = compare(&reps, evals)?;
         if eng!("is_terminal", reps[0].is_terminal()).is_some() || va.is_empty() {
             return Ok(());
@@ -226,6 +235,24 @@ fn minimise_sym(start: &str, ops: &[String], monitor: &str) -> (String, Vec<Stri
     if let Some((t, d)) = test(&best_start, &best_ops, &mut budget) {
         best_ops = t;
         detail = d;
+    }
+    // cut the prefix: restart from the printed position at the latest turn start that still fails
+    CUTS.with(|c| *c.borrow_mut() = Some(vec![]));
+    let _ = test(&best_start, &best_ops, &mut budget);
+    let mut cuts = CUTS.with(|c| c.borrow_mut().take()).unwrap_or_default();
+    cuts.retain(|(i, _)| *i > 0 && *i < best_ops.len());
+    cuts.reverse();
+    for (n, (i, diag)) in cuts.iter().enumerate() {
+        if n >= 40 {
+            break;
+        }
+        let cand_ops: Vec<String> = best_ops[*i..].to_vec();
+        if let Some((t, d)) = test(diag, &cand_ops, &mut budget) {
+            best_start = diag.clone();
+            best_ops = t;
+            detail = d;
+            break;
+        }
     }
     let mut chunk = (best_ops.len() / 2).max(1);
     loop {
